@@ -10,8 +10,8 @@ import gen, pipeline, model, impl, shex_text, shacl_text, findings as F, oracle
 from props import base
 from shexer import consts as C
 
-PROPS_MODULES = ["ShexerModel.Props.C17", "ShexerModel.Props.GenStrLcp"]
-DEPS = ["S.longest_common_prefix"]
+PROPS_MODULES = ["ShexerModel.Props.C17", "ShexerModel.Props.GenStrLcp", "ShexerModel.Props.GenStrSuitable"]
+DEPS = ["S.longest_common_prefix", "S.determine_suitable_iri_pattern"]
 replay = base.replay
 SEPS = ":/#"
 
